@@ -736,6 +736,9 @@ struct Visitor : RecursiveASTVisitor<Visitor> {
         if (!dependentCtx && VD->hasInit() && VD->getInit() && !VD->getInit()->isValueDependent()) {
             g["has_init"] = true;
             if (VD->hasConstantInitialization()) g["const_init"] = true;
+            // initialiser tree (tables such as RADIOTAP_METADATA are read by the rule engines)
+            FnEmitter FE(C);
+            g["init"] = FE.emit(VD->getInit());
         }
         gGlobals.push_back(std::move(g));
         return true;
